@@ -3,6 +3,7 @@
 package main
 
 import (
+	"time"
 	"encoding/json"
 	"flag"
 	"fmt"
@@ -46,6 +47,18 @@ func main() {
 		var n int
 		fmt.Sscan(g, &n)
 		debug.SetGCPercent(n)
+	}
+	if os.Getenv("VERIF_GCSTORM") == "1" {
+		// discovered configuration dyn-gcstorm (the library uses finalizers / cleanups / weak pointers):
+		// collections run back to back for the whole check, so an object that is unreachable for a
+		// few instructions in the middle of a call is finalized right there
+		debug.SetGCPercent(1)
+		go func() {
+			for {
+				runtime.GC()
+				time.Sleep(150 * time.Microsecond)
+			}
+		}()
 	}
 	if *list {
 		fmt.Println("properties:", strings.Join(props.IDs(), " "))
